@@ -512,6 +512,15 @@ def minimize_lbfgsb(
 
         f0_old = copy.copy(f0)
 
+        # an objective that is unbounded below drives the iterates to magnitudes at
+        # which theta * g.g (the curvature of the model along the projected gradient
+        # path) overflows: no Cauchy point can be computed there
+        if not np.isfinite(mats.theta * grad.dot(grad)):
+            istate.task_str = "ABNORMAL_TERMINATION_IN_LNSRCH"
+            istate.warnflag = 2
+            istate.is_success = False
+            break
+
         # find cauchy point
         x_cp, c = get_cauchy_point(
             x,
